@@ -446,6 +446,24 @@ theorem group_forms_callers :
        ("signalProcessGroup", "group", "isSignallable", "signalProcess", ["signal"]),
        ("signalAllProcesses", "all", "isSignallable", "signalProcess", ["signal"])] := by decide
 
+/-- **The star / empty-name forms are the group forms with the caller's own arguments** (extracted from the branch
+    `process is None` of the three single-process methods): `startProcess('g:*', wait)` and `startProcess('g:', wait)` are
+    `startProcessGroup(g, wait)`, `stopProcess` likewise, `signalProcess('g:*', signal)` is `signalProcessGroup(g, signal)` --
+    the group part of the namespec and every further argument of the caller are passed on, none is left at its default.
+    Together with `group_forms_callers` (the keyword arguments reach every single call) the group theorems above therefore
+    speak about the single calls *with the arguments of the request*, for all three spellings of a group-wide request. -/
+theorem group_forms_delegations :
+    Sv.Gen.AllFunc.delegations =
+      [("startProcess", "startProcessGroup", [("name", "group"), ("wait", "wait")]),
+       ("stopProcess", "stopProcessGroup", [("name", "group"), ("wait", "wait")]),
+       ("signalProcess", "signalProcessGroup", [("name", "group"), ("signal", "signal")])] := by decide
+
+/-- every argument the group method passes to the single calls (`callers`) is one it received from the delegating
+    single-process method (`delegations`): no `wait` / `signal` is lost on the way from `m('g:*', x)` to `m('g:p', x)` -/
+theorem group_forms_arguments_reach_single_calls :
+    ∀ d ∈ Sv.Gen.AllFunc.delegations, ∀ c ∈ Sv.Gen.AllFunc.callers, c.1 = d.2.1 →
+      c.2.2.2.1 = d.1 ∧ ∀ k ∈ c.2.2.2.2, (k, k) ∈ d.2.2 := by decide
+
 /-- **Eligible = the single call would not refuse for the state**: `isRunning` holds exactly in the states in which
     `stopProcess` does not answer NOT_RUNNING (`stop_not_running_exact`), `isNotRunning` exactly in those in which
     `startProcess` does not answer ALREADY_STARTED, `isSignallable` exactly in those in which `signalProcess` does not
